@@ -40,3 +40,11 @@ def prefix_fold(f, init, xs, i):
 def items_of(it):
     """the (remaining) items of an iterator or sequence, as a list"""
     return list(it)
+
+
+def recursive(fn):
+    """Marks a boolean spec function that calls itself (natively: plain recursion).  In proofs its value is
+    an uninterpreted predicate of the arguments (scalars, by-id objects, maps, input lists / list attributes);
+    the defining equation is unfolded once for the arguments of every call made outside quantifier bodies."""
+    fn._pv_recursive = True
+    return fn
